@@ -7,7 +7,7 @@
    real converting constructors, storage contents included. *)
 From Coq Require Import ZArith List Bool.
 From Covfie Require Import Layout LayoutMem NdMap Stack Relayout Convert ConvertProofs Refine_Copy.
-From Covfie.gen Require Import Gen_Copy.
+From Covfie.gen Require Import Gen_Copy Gen_Conv.
 Import ListNotations.
 Local Open Scope Z_scope.
 
@@ -64,6 +64,11 @@ Theorem C05_copy_schemes_are_the_sources :
   scheme_ok copy_morton (model_capacity (LMorton 2 U64 false)) Calc = true /\
   scheme_ok copy_hilbert (model_capacity (LHilbert U64)) CalcSizes = true /\ copy_problems = O.
 Proof. exact copy_schemes_are_the_models. Qed.
+
+(* whole stacks: the converting constructors of the layers that have one are the model's (configuration carried over by
+   the wrappers, the backend converted by its own constructor, a storage order re-laid out by its copy function) *)
+Theorem C05_converting_constructors_are_the_sources : conv_ctors = model_conv_ctors /\ conv_problems = O.
+Proof. exact converting_constructors_are_the_models. Qed.
 
 Print Assumptions C05_relayout_preserves.
 Print Assumptions C05_executable_conversion_preserves_cells.
